@@ -245,6 +245,24 @@ X_BitFwd(e) ==
        /\ Cardinality(AllPairs(e.r)) = SumLens(e.r)
        /\ AllPairs(e.r) = Exp_BitFwd(e)
        /\ \A p \in AllPairs(e.r) : 0 <= p[2] /\ p[2] <= Pow2(e.a.vz) - 1     \* always inside the subdivision
+\* high subdivision zooms (13..35): the driver gives the cell height instead of the range end
+Exp_BitFwdHi(e) ==
+  {<<QuadOfBits(t[1], t[2]), k>> :
+      t \in HorizontalZoomBits(e.a.id[2], e.a.id[3], e.a.hz),
+      k \in BitCellByHeight(e.a.lo, e.a.vz, e.a.mn, e.a.cell)..BitCellByHeight(e.a.hi, e.a.vz, e.a.mn, e.a.cell)}
+X_BitFwdHi(e) ==
+  /\ Ok(e)
+  /\ \A i \in 1..Len(e.r) : e.r[i].hz = e.a.hz /\ e.r[i].vz = e.a.vz /\ e.r[i].echo
+  /\ Cardinality(AllPairs(e.r)) = SumLens(e.r)
+  /\ AllPairs(e.r) = Exp_BitFwdHi(e)
+Exp_BitBackHi(e) ==
+  LET q == e.a.key
+      lo == e.a.mn + q[4] * e.a.cell
+      sh == e.a.ovz - 25 - e.a.S
+      fLo == ArithShift(lo, sh)  fHi == ArithShift(lo + e.a.cell, sh)
+  IN  {<<e.a.hz, t[1], t[2], e.a.ovz, g>> :
+          t \in HorizontalZoomBits(XBitsOfQuad(q[2]), YBitsOfQuad(q[2]), e.a.hz), g \in fLo..fHi}
+X_BitBackHi(e) == Ok(e) /\ ListIsSet(e.r, Exp_BitBackHi(e))
 Exp_BitBack(e) ==
   LET q == e.a.key  span == e.a.mx - e.a.mn
       loN == e.a.mn * Pow2(q[3]) + q[4] * span
@@ -364,6 +382,8 @@ Explains(e) ==
       [] e.op = "TilesToSp"            -> X_TilesToSp(e)
       [] e.op = "BitFwd"               -> X_BitFwd(e)
       [] e.op = "BitBack"              -> X_BitBack(e)
+      [] e.op = "BitFwdHi"             -> X_BitFwdHi(e)
+      [] e.op = "BitBackHi"            -> X_BitBackHi(e)
       [] e.op \in {"Line", "LineSp"}   -> X_Line(e)
       [] e.op = "Corridor"             -> X_Corridor(e)
       [] e.op = "CorridorInvalid"      -> X_CorridorInvalid(e)
@@ -421,6 +441,8 @@ Expected(e) ==
     [] e.op = "TilesToSp"            -> IF TilesValid(e) THEN Exp_TilesToSp(e) ELSE "error, no partial result"
     [] e.op = "BitFwd"               -> Exp_BitFwd(e)
     [] e.op = "BitBack"              -> Exp_BitBack(e)
+    [] e.op = "BitFwdHi"             -> Exp_BitFwdHi(e)
+    [] e.op = "BitBackHi"            -> Exp_BitBackHi(e)
     [] e.op \in {"Line", "LineSp"}   -> [walkEnd |-> WalkEnd(e.a.moves),
                                          notTouched |-> Range(e.r) \ Touched(e.a.moves),
                                          reachable |-> Cardinality(Reachable(Range(e.r), <<0, 0, 0>>))]
